@@ -35,6 +35,8 @@ m = {
          "kind_free_text": "TLA+ specification of the commands as compositions of the library operators over a small tree of files; invariants quantified over command arguments; bound by executing the real commands on every exported tree and by validating driver lines (spec/Trace_CLI.tla)"},
         {"name": "tla-format", "path": "spec/WhisperFormat.tla, spec/TextSyntax.tla, spec/WhisperCodec.tla", "serves_properties": ["C07", "C14", "C15", "C19"],
          "kind_free_text": "TLA+ specifications of header validity / file layout, text syntax and the codec's framing protocol; laws checked by TLC on bounded domains; every enumerated case exported and executed against the real entry points, real printer output validated by TLC (spec/Trace_Text.tla)"},
+        {"name": "tla-file", "path": "spec/WhisperFile.tla", "serves_properties": ["C13", "C17"],
+         "kind_free_text": "TLA+ specification of one file shared by several processes: descriptor, flock, lazily filled page cache with write-back, Sync, Close, crash; all interleavings explored by TLC; bound by validating event logs of real concurrent sessions (spec/Trace_File.tla) and concurrent read results"},
     ],
     "checks": checks,
     "notes": "All checks: exit 0 held / exit 1 + VIOLATION line / exit 2 broken check. VERIF_SEED and VERIF_TIER honoured. Known findings and repaired defects: known_findings.json.",
